@@ -185,6 +185,36 @@ same holds for the bodies of the other clauses of `own_writes_only` (raised, `Lo
 theorem nested_blocks_are_flat (p : List Cmd) (rd : List (Option Int)) (s : BodySt) :
     specBody p rd s = specBody (flatten p) rd s := specBody_flatten p rd s
 
+/-- **Multi-key writes are sequences of single-key writes.**  `cache.set_many({k1: v1, …})` / `cache.delete_many(k1, …)` inside a
+transaction are the command sequences `Cmd.setMany kvs` / `Cmd.deleteMany ks` (Model/TxSched.lean: the locks are taken key by key
+through `_get_lock_key`, then everything is buffered without a suspension point).  Their sequential meaning is what
+`TransactionBackend.set_many` / `delete_many` do to the buffer in one go: every pair is put into the overlay (in order) and its
+key is struck from the deletion marks; every key is erased from the overlay and marked deleted.  Since they are ordinary programs,
+every theorem of this file (own writes only, lock exclusion, disjoint write phases in serializable mode - where `lockKeyOf`
+answers the one global lock for EVERY key, also when a multi-key write is the transaction's first write -, commits inside the
+write phase) covers bodies that contain them.  (Seeded change C05-14 gave set_many / delete_many a batch-lock helper that built
+per-key lock names itself: in serializable mode such a transaction never took the global lock.) -/
+theorem multi_key_writes_are_sequences (r : List Cmd) (rd : List (Option Int)) :
+    (∀ (kvs : List (Nat × Int)) (s : BodySt), specBody (Cmd.setMany kvs ++ r) rd s =
+      specBody r rd { s with ov := kvs.foldl (fun o p => o.put p.1 p.2) s.ov,
+                             del := kvs.foldl (fun d p => d.filter (· ≠ p.1)) s.del }) ∧
+    (∀ (ks : List Nat) (s : BodySt), specBody (Cmd.deleteMany ks ++ r) rd s =
+      specBody r rd { s with ov := ks.foldl AL.erase s.ov,
+                             del := ks.foldl (fun d k => k :: d.filter (· ≠ k)) s.del }) := by
+  refine ⟨fun kvs => ?_, fun ks => ?_⟩
+  · induction kvs with
+    | nil => intro s; rfl
+    | cons p kvs ih =>
+      intro s
+      simp only [Cmd.setMany, List.map_cons, List.cons_append, specBody, List.foldl_cons] at ih ⊢
+      exact ih _
+  · induction ks with
+    | nil => intro s; rfl
+    | cons k ks ih =>
+      intro s
+      simp only [Cmd.deleteMany, List.map_cons, List.cons_append, specBody, List.foldl_cons] at ih ⊢
+      exact ih _
+
 /-- **A cancelled task releases everything**: a task is cancelled (`Act.cancel`) while it is suspended inside its
 body; in the state right after, nothing is buffered any more, it believes to hold no lock beyond those it is about to
 release (`held` = the locks its rollback's `_unlock_updates` is working through), and once it has finished it holds none
@@ -629,6 +659,35 @@ example : (fun w : World => ((w.tasks 0).pc, mineOf w 0, (w.tasks 1).pc, mineOf 
     ((World.init exStore1 (exShared .locked)).run
       [.run 0, .run 1, .run 1, .run 1, .run 0, .run 0, .run 1, .run 1, .run 1, .adv 4, .run 0, .run 0, .run 0, .run 0, .run 0]) =
     (.finished (.returned [some 2]), [.setMany [(1, 5), (0, 2)]], .finished (.raised ⟨false, false⟩), [], some 2, none) := by decide
+
+/-- **multi-key writes in serializable mode** (the shape of seeded change C05-14): task 0 writes only with `delete_many` and
+`set_many`, so its commit is two backend commands; task 1 sets the same keys.  The first `delete_many` takes the GLOBAL lock; task 1,
+released while task 0 is between `delete_many` and `set_many` of its commit, is refused it and sleeps; the write order is
+delete_many[0], set_many{1:5}, set_many{0:7,1:7} — a serial outcome -/
+def exMulti : List Task :=
+  [{ isTx := true, mode := .serializable, timeout := 40, form := .ctx, prog := Cmd.deleteMany [0] ++ Cmd.setMany [(1, 5)] },
+   { isTx := true, mode := .serializable, timeout := 40, form := .dec, prog := [.set 0 7, .set 1 7] }]
+
+def exMultiSched : List Act :=
+  [.run 0, .run 0, .run 1, .run 0, .run 1, .run 0, .run 0, .adv 4, .run 1, .run 1, .run 1]
+
+example : (((World.init (fun k => if k ≤ 1 then some 1 else none) exMulti).run (exMultiSched.take 2)).tasks 0).held = [none] := by decide
+example : (((World.init (fun k => if k ≤ 1 then some 1 else none) exMulti).run (exMultiSched.take 4)).tasks 0).pc = .commitSet := by decide
+example : (((World.init (fun k => if k ≤ 1 then some 1 else none) exMulti).run (exMultiSched.take 5)).tasks 1).pc = .lockSleep 0 9 4 := by decide
+example : (fun w : World => (w.log.map (·.2), w.store 0, w.store 1))
+    ((World.init (fun k => if k ≤ 1 then some 1 else none) exMulti).run exMultiSched) =
+    ([.delMany [0], .setMany [(1, 5)], .setMany [(0, 7), (1, 7)]], some 7, some 7) := by decide
+
+/-- **the shared context object entered three deep, the innermost block raises** (the shape of seeded change C05-15, whose
+`__aexit__` of an inner block returned the remaining depth and so suppressed the exception): the exception leaves all three
+blocks, the caller gets it, no step of the task touched the store, the locks are given back -/
+def exDeep : List Task :=
+  [{ isTx := true, mode := .locked, timeout := 40, form := .obj,
+     prog := [.set 1 5, .nestIn .obj, .incr 0 1, .nestIn .obj, .set 2 6, .raise ⟨false, false⟩, .nestOut none, .nestOut none] }]
+
+example : (fun w : World => ((w.tasks 0).pc, mineOf w 0, w.store 1, w.store 2, (w.tasks 0).held))
+    ((World.init exStore1 exDeep).run [.run 0, .run 0, .run 0, .run 0, .run 0, .run 0, .run 0, .run 0]) =
+    (.finished (.raised ⟨false, false⟩), [], none, none, []) := by decide
 
 /-- **explicit `tx.commit()` in the middle of a body**: task 0 increments, commits, increments again; after the commit it
 holds no lock, so task 1 gets the counter's lock in between and task 0's second `incr` has to wait for it -/
